@@ -3,15 +3,22 @@
    LR 5..7 instead of 64..254: an INF frame carries 2..4 bytes, payloads of 1..3 chunks. *)
 EXTENDS NfcDep
 
+\* general bytes: a token per configuration (0: none), so that sessions differ in them too
 CfgD(lrI, lrT, did, did0, nad, fixmiu, R) ==
-    [lrI |-> lrI, lrT |-> lrT, did |-> did, tdid |-> did /\ ~did0, did0 |-> did0, nad |-> nad, sb |-> (lrI + lrT) % 2 = 0,
+    LET a == [lrI |-> lrI, lrT |-> lrT, did |-> did, tdid |-> did /\ ~did0, did0 |-> did0, nad |-> nad,
+              sb |-> (lrI + lrT) % 2 = 0, R |-> R, tR |-> R,
+              gbI |-> IF nad THEN lrI ELSE 0, gbT |-> IF nad THEN lrT ELSE 0] IN
+    [lrI |-> lrI, lrT |-> lrT, did |-> did, tdid |-> did /\ ~did0, did0 |-> did0, nad |-> nad, sb |-> a.sb,
      miuI |-> lrT - 3 - B(did) - B(nad),
-     miuT |-> lrI - 3 - (IF fixmiu THEN B(did /\ ~did0) ELSE 0), R |-> R]
+     miuT |-> lrI - 3 - (IF fixmiu THEN B(did /\ ~did0) ELSE 0), R |-> R, tR |-> R, gbI |-> a.gbI, gbT |-> a.gbT,
+     e |-> a, prev |-> NoPrev]
 Cfg(lrI, lrT, did, nad, fixmiu, R) == CfgD(lrI, lrT, did, FALSE, nad, fixmiu, R)
 
 \* code as repaired: all three variants on
-MC_VsFixed == {{"ack", "atn", "did0", "ipni0", "tpni0"}}
-MC_VsAsIs  == {{}}
+MC_VsFixed == {{"ack", "atn", "did0", "ipni0", "tpni0", "freshI", "freshT"}}
+MC_VsAsIs  == {{"freshI", "freshT"}}
+\* prediction: one of the two objects assigns its optional attributes only when the new session has them
+MC_VsStale == {{"ack", "atn", "did0", "ipni0", "tpni0", "freshI"}, {"ack", "atn", "did0", "ipni0", "tpni0", "freshT"}}
 
 \* quick: no DID / with DID (repaired MIU), different MIUs per direction
 MC_CfgsFixed == {Cfg(5, 5, FALSE, FALSE, TRUE, 2), Cfg(6, 5, TRUE, FALSE, TRUE, 2), Cfg(5, 7, TRUE, TRUE, TRUE, 2),
@@ -19,11 +26,16 @@ MC_CfgsFixed == {Cfg(5, 5, FALSE, FALSE, TRUE, 2), Cfg(6, 5, TRUE, FALSE, TRUE, 
 MC_CfgsThorough == MC_CfgsFixed \cup {Cfg(7, 6, FALSE, FALSE, TRUE, 3)}
 MC_CfgsAsIs  == {Cfg(5, 5, FALSE, FALSE, FALSE, 2), Cfg(6, 6, TRUE, FALSE, FALSE, 2)}
 MC_CfgsDid0  == {CfgD(5, 6, TRUE, TRUE, FALSE, TRUE, 2)}
-MC_VsHead    == {{"ack", "atn", "ipni0"}}            \* /repo HEAD: did=0 still open
+MC_VsHead    == {{"ack", "atn", "ipni0", "freshI", "freshT"}}            \* /repo HEAD: did=0 still open
 MC_CfgsTrunc == {Cfg(5, 5, FALSE, FALSE, TRUE, 2), Cfg(6, 5, TRUE, FALSE, TRUE, 2)}     \* 106A / 212F framing
 MC_CfgsNoDid == {Cfg(5, 5, FALSE, FALSE, FALSE, 2)}
+\* sessions of the same two objects: no DID / no NAD / general bytes, 106A  <->  DID, NAD, no general bytes, larger LR,
+\* 212F  <->  DID only, smaller LR; every ordered pair, so each optional field goes present -> absent and absent -> present
+MC_CfgsSess  == {Cfg(6, 6, FALSE, FALSE, TRUE, 2), Cfg(7, 8, TRUE, TRUE, TRUE, 2), Cfg(5, 6, TRUE, FALSE, TRUE, 2)}
 MC_Lens  == {1, 2, 3, 5}
 MC_LensT == {1, 2, 3, 4, 5, 6}
 MC_Ds    == {3, 5}
+MC_LensS == {1, 4}
+MC_DsS   == {3, 5}
 MC_DsT   == {1, 3, 6}
 =============================================================================
